@@ -366,7 +366,11 @@ def m_t4(ctx, case):
                 v = rng.randint(-284, 284)
                 mb = put(put(put(mb, 1, 1, 1), 2, 2, 1 if v < 0 else 0), 3, 11, v & 511)
             # bit 12 = trk50 status = lsb of hdg60 ; bit 13 = ias60 status = trk50 sign
-            if st[1]:
+            if st[1] and rng.random() < 0.25:
+                # BDS 6,0 reading: IAS not available (status and field zero) while the heading lsb (= track status of the
+                # BDS 5,0 reading) is set -> track exactly 0, the IAS-derived vector is NaN in the arbitration
+                mb = put(put(mb, 12, 12, 1), 13, 23, 0)
+            elif st[1]:
                 mb = put(put(put(mb, 12, 12, 1), 13, 13, 1), 14, 23, rng.randint(60, 500))
             if st[2]:
                 mb = put(put(mb, 24, 24, 1), 25, 34, rng.randint(30, 250))
